@@ -354,7 +354,7 @@ theorem step_core (s t : State) (e : Ev) (h : step s e = some t) :
     · simp at h
   | setUser =>
     simp only [step] at h
-    split at h <;> (simp at h; subst h; left; rfl)
+    (repeat' split at h) <;> (simp at h; subst h; left; rfl)
   | call => simp [step] at h; subst h; left; rfl
   | push => simp [step] at h; subst h; left; rfl
   | setEnv e => simp [step] at h; subst h; left; rfl
